@@ -30,7 +30,7 @@ func init() {
 		Rule: "case = sequential history of 60-140 blockstore calls (Put, PutMany, Get, Has, GetSize, DeleteBlock, HashOnRead toggles) over 8-30 blocks of sizes {0,1,31,32,100,4096,~70KiB} hashed with sha2-256, sha2-512 (a third of them truncated to 16/20/28 bytes), blake2b-256 or identity, addressed through CIDv0/v1 x raw/dag-pb/dag-cbor aliases, plus deliberately mismatching (CID, bytes) pairs; every method is also called with a cancelled context; IndexBitSize(8) so real hashes share buckets; in a third of the cases the primary file-size limit equals the exact total size of the first 2-4 records, which are stored first; compared call by call with a reference map keyed by multihash and the expected error classes. Serviced variant (case index mod 3 == 2): the periodic flusher runs at 1 ms and the history contains settle steps (wait, by hook counters, until a flush that began after the step has completed), after each of which every block is read again, and restarts (Close + OpenHashedBlockstore); in half of these the background collectors run at 2 ms on 2 KiB primary files and the history ends with a mass delete (80 fresh blocks, all deleted but two adjacent ones in every run of 26), several collector cycles, a restart, 70 more blocks (the primary rolls over several times), another restart, and a complete re-read with hash-on-read enabled; " +
 			"non-trivial iff the run exercised a cancelled-context call, an alias lookup, a wrong-hash probe with the flag on and with it off, a delete and an empty block; distinct = hash of the call list",
 		Assumptions: []string{
-			"multihash digests >= 4 bytes (identity-hashed blocks have >= 4 bytes)",
+			"multihash digests >= 4 bytes (identity-hashed blocks have >= 4 bytes) and no digest is a proper prefix of another (the precondition C01 puts on keys holds for the adapter's keys: identity-hashed blocks are not prefixes of each other, only blocks with unique bytes get truncated digests)",
 			"first write wins for a multihash (the adapter opens the store immutable and suppresses key-exists)",
 		},
 	})
